@@ -18,13 +18,13 @@ RULE = ('programs = sequences of add_arrow/add_arrows/add_from_networkx on Direc
         '3^9 = 19683 orientation vectors of the 9 free node pairs of a 5-node graph with X->Y (8816 DAGs; the 10867 cyclic ones '
         'must be rejected and leave the graph unchanged) as one add_arrows call in lexicographic arrow order [all, both tiers], '
         'and in reversed order / shuffled one-by-one add_arrow calls / add_from_networkx with a random node permutation '
-        '[quick: 1500 sampled each + every graph on which the Coq model of the shipped moralisation loop loses a set in the '
+        '[quick: 1000 sampled each + every graph on which the Coq model of the shipped moralisation loop loses a set in the '
         'lexicographic pass; thorough: all]; (2) random programs on 2..8 nodes mixing the three calls, with deliberately '
         'cycle-creating arrows (reversed existing arrow, self-loop, closing a directed path), cyclic / exposure-less networks; '
         '(3) structured family on 6, 7, 8 nodes: templates containing a collider with descendants (M + child, butterfly + child, '
         'M + grandchild, M + two children, two colliders sharing parents, collider chains, double M + child) x every/random assignment of '
         'roles to nodes x random extra arrows (p = 0, 0.1, 0.25 along a random linear extension) x call style; (4) dense random DAGs on '
-        '6-8 nodes (arrow probability 0.3-0.5 along a random topological order).  Coverage is MEASURED with the Coq model: a case '
+        '6-8 nodes (arrow probability 0.15-0.5 along a random topological order).  Coverage is MEASURED with the Coq model: a case '
         'exercises a step of the algorithm iff ablating that step in the model changes the answer for some candidate set. '
         'non-trivial = accepted DAG on which the specification admits some but not all candidate sets')
 TRUSTED = ['networkx: is_directed_acyclic_graph / descendants / ancestors / has_path / DiGraph insertion order and copy() '
@@ -303,7 +303,7 @@ def exhaustive_part(ctx, fails):
     ctx.extra['five_node_graphs_on_which_model_of_shipped_loop_loses_sets_lex_order'] = len(flagged)
     for order in ('rev', 'shuf', 'nx'):
         if ctx.quick:
-            pick = ctx.rng.sample(vecs, 1500) + flagged
+            pick = ctx.rng.sample(vecs, 1000) + flagged
         else:
             pick = vecs
         cases = [('5node-' + order, prog_for(order, v, ctx.rng)) for v in pick]
@@ -454,7 +454,7 @@ def dense_part(ctx, fails):
             if order.index(0) > order.index(1):     # keep X before Y so that X -> Y is compatible
                 i, j = order.index(0), order.index(1)
                 order[i], order[j] = order[j], order[i]
-            p = rng.choice([0.3, 0.4, 0.5])
+            p = rng.choice([0.15, 0.2, 0.3, 0.4, 0.5])
             es = [(order[i], order[j]) for i in range(n) for j in range(i + 1, n)
                   if (order[i], order[j]) != (0, 1) and rng.random() < p]
             cases.append(('dense-%d' % n, styled(rng, n, es)))
